@@ -287,6 +287,9 @@ def _int_cast(ev, args, kwargs, fr):
             fr.facts = f2
             return v
     if T.tag(x) == 'enum':
+        ci = ev.p.classes.get(x[1])
+        if ci is not None and any(b.split('.')[-1] in ('IntEnum', 'IntFlag') for c_ in ci.mro() for b in c_.base_names):
+            return x[3]         # a member of an IntEnum is its integer value
         return T.raise_('TypeError')
     if base is None and T.type_of(x) == 'int':
         return x
@@ -802,6 +805,10 @@ def encode(recv, enc=None, errors=None):
             return T.const(recv[1].encode(enc[1]))
         except Exception:
             return T.raise_('UnicodeEncodeError')
+    if T.is_op(recv, 'CAT') and enc == T.const('utf-8') and errors == T.const('strict') and T.type_of(recv) == 'str':
+        # UTF-8 encodes code point by code point: the encoding of a concatenation is the concatenation of the encodings
+        # (one canonical spelling for `(a + b).encode()` and `a.encode() + b.encode()`)
+        return T.cat(*[encode(x, enc, errors) for x in recv[2:]])
     return T.raw_op('ENCODE', recv, enc, errors)
 
 
